@@ -242,6 +242,10 @@ function makeWorld(spec) {
       let val
       try { val = canon(r.value, d + 1) } catch (e) { val = { t: 'throw' } }
       dflt = { t: 'some', value: val, called: r.called, raw: canon(opt.default, d + 1) }
+      if (ctorName(opt.type) === 'Function' && typeof r.value === 'function') {
+        // a Function-typed prop receives the default itself: observe what calling it yields
+        try { dflt.ret = canon(r.value(), d + 1) } catch (e) { dflt.ret = { t: 'throw' } }
+      }
     }
     return { t: 'propopt', es, dflt }
   }
@@ -320,6 +324,7 @@ function makeWorld(spec) {
     }
   }
   sandbox.$v = (id) => mk(spec.vals[id])
+  sandbox.$dc = vue.defineComponent
   sandbox.$mark = (id) => log({ ev: 'mark', id })
   for (const p of spec.pragmas || []) if (!(p in sandbox)) sandbox[p] = makeFactory(p)
   sandbox.console = { log() {}, warn() {}, error() {} }
@@ -349,7 +354,7 @@ async function runCase(spec) {
         // other modules: every imported name is an opaque probe value
         const names = spec.other_imports && spec.other_imports[specifier] ? spec.other_imports[specifier] : []
         const o = {}
-        for (const n of names) o[n] = n === 'defineComponent' ? ((a, b) => ({ __opq: 'other:defineComponent', args: [a, b] })) : Object.freeze({ __opq: specifier + ':' + n })
+        for (const n of names) o[n] = n === 'defineComponent' ? W.vue.defineComponent : Object.freeze({ __opq: specifier + ':' + n })
         m = synth(o)
       }
       await m.link(() => {})
